@@ -311,6 +311,14 @@ impl FetchState {
                 };
                 log::trace!(target: "fetch", "{sigrefs_at:?}");
                 self.run_stage(handle, handshake, &sigrefs_at)?;
+                // N.b. the `rad/sigrefs` that get applied are the announced ones,
+                // so these are the ones that must be loaded, verified and validated,
+                // and not the ones the serving node happens to advertise.
+                for RefsAt { remote, at } in refs_at.iter() {
+                    if !handle.is_blocked(remote) {
+                        self.sigrefs.insert(*remote, *at);
+                    }
+                }
                 let remotes = refs_at.iter().map(|r| &r.remote);
 
                 let signed_refs = sigrefs::RemoteRefs::load(&self.as_cached(handle), remotes)?;
